@@ -7,4 +7,7 @@ CONSTANTS
   AllOffs = TRUE
   EdgeTods = FALSE
   Seed = 1
+  E2EYears = {1, 999}
+  HistLen = 2
+  HistN = 12
 INVARIANTS RefValid CalendarOK EmitCase
